@@ -102,8 +102,16 @@ func extensionsOf(name string) []goldmark.Extender {
 			extension.Strikethrough, extension.TaskList, extension.DefinitionList, extension.Footnote, extension.Typographer}
 	case "gfmattr": // GFM members with table alignment pinned to the attribute method (C10)
 		return []goldmark.Extender{extension.Linkify, extension.NewTable(extension.WithTableCellAlignMethod(extension.TableCellAlignAttribute)), extension.Strikethrough, extension.TaskList}
-	case "footnote-pt": // footnote parsers without the AST transformer (ground truth for C16)
+	case "footnote-pt", "fnfunc-pt": // footnote parsers without the AST transformer (ground truth for C16)
 		return []goldmark.Extender{fnParsersOnly{}}
+	case "fnfunc": // footnote ids prefixed by a function of the document (differs from document to document)
+		return []goldmark.Extender{extension.NewFootnote(extension.WithFootnoteIDPrefixFunction(func(n ast.Node) []byte {
+			b := make([]byte, 0, 32)
+			if d := n.OwnerDocument(); d != nil && d.ChildCount()%2 == 0 {
+				return append(b, "e-"...)
+			}
+			return append(b, "o-"...)
+		}))}
 	case "nocjk-pt":
 		return []goldmark.Extender{extension.GFM, extension.DefinitionList, fnParsersOnly{}, extension.Typographer}
 	case "all-pt":
@@ -149,7 +157,7 @@ func (c mdConfig) build() goldmark.Markdown {
 	if c.HardWraps {
 		ropts = append(ropts, html.WithHardWraps())
 	}
-	if c.FnPrefix != "" {
+	if c.FnPrefix != "" && c.FnPrefix != "?" {
 		ropts = append(ropts, extension.WithFootnoteIDPrefix(append(make([]byte, 0, 64), c.FnPrefix...)))
 	}
 	return goldmark.New(goldmark.WithExtensions(extensionsOf(c.Ext)...), goldmark.WithParserOptions(popts...), goldmark.WithRendererOptions(ropts...))
